@@ -143,11 +143,13 @@ def extra(ctx, info, rng, fam, hs):
     """memory vs SQLite directly (executed), Postgres vs SQLite statically (lib/pgtie.py, Properties/C13pg.v)"""
     cov = cross_compare(ctx, info, rng, fam, hs)
     cov.update(pgtie.run(ctx, info, rng, fam, hs))
+    from lib import c13att
+    cov.update(c13att.run(ctx, info, rng))
     return cov
 
 
 def main(ctx, replay):
-    return queuefam.run_property(ctx, "C13", 150, 3000, extra=extra, extra_prop_files=("C13pg",),
+    return queuefam.run_property(ctx, "C13", 150, 3000, extra=extra, extra_prop_files=("C13pg", "C13att"),
                                  assumptions=["C13 histories keep clock steps at 0 or >= the SQLite sweep interval and avoid the memory-only admission rules "
                                               "(memory pressure, delivered-retention depth term); those regimes are covered by C05/C12 per backend",
                                               "the Postgres store is tied to the SQLite store only statically (C13pg: equal statement skeletons modulo the reviewed "
